@@ -1066,7 +1066,7 @@ func (r *messageReader) Read(b []byte) (int, error) {
 			rem := c.readRemaining
 			rem -= int64(n)
 			_ = c.setReadRemaining(rem) // rem is guaranteed to be >= 0
-			if c.readRemaining > 0 && c.readErr == io.EOF {
+			if (c.readRemaining > 0 || !c.readFinal) && c.readErr == io.EOF {
 				c.readErr = errUnexpectedEOF
 			}
 			return n, c.readErr
